@@ -3,7 +3,8 @@
 // verif-c15: correspondence harness + direct property oracles for C15 (entity versioning / OCC) and C19 (tag mappings,
 // flood limits). It drives the REAL metadata.DBV2 on real SQLite with an fsbinlog on a temp dir and a scripted clock.
 //
-//	-mode=c15   entity-heavy histories; every 8th case is a concurrent race (identical requests from 8 goroutines)
+//	-mode=c15   entity-heavy histories; every 8th case is a concurrent race (identical requests from 8 goroutines); every 4th
+//	            case drives the journal long-poll path of the real rpc Handler (RawGetJournal / RawEditEntity / broadcastJournal)
 //	-mode=c19   mapping-heavy histories with random budgets/clock; every 6th case is a pure calcBudget/roundTime stream
 //
 // Token rendering (the Lean model only sees tokens): entity name ⟨ns,loc⟩ = "w<ns>:w<loc>" / "w<loc>", data tag t with
@@ -24,7 +25,11 @@ import (
 	"sync"
 	"time"
 
+	"net"
+
+	"github.com/VKCOM/statshouse/internal/data_model"
 	"github.com/VKCOM/statshouse/internal/data_model/gen2/tlmetadata"
+	"github.com/VKCOM/tl/pkg/rpc"
 	"github.com/VKCOM/statshouse/internal/metadata"
 	"github.com/VKCOM/statshouse/internal/verifx"
 	"github.com/VKCOM/statshouse/internal/vkgo/binlog/fsbinlog"
@@ -743,6 +748,15 @@ func (x *sut) tick(r *verifx.Rng) {
 	}
 }
 
+func (x *sut) versionIsCurrent(v int64) bool {
+	for _, cv := range x.cur {
+		if cv == v {
+			return true
+		}
+	}
+	return false
+}
+
 func knownIDs(x *sut) []int64 {
 	ids := make([]int64, 0, len(x.cur))
 	for id := range x.cur {
@@ -1052,6 +1066,321 @@ func raceC15(h *verifx.H, r *verifx.Rng) {
 	x.dump()
 }
 
+// ------------------------------------------------------------------ journal long-poll through the real rpc handler
+
+type pollReply struct {
+	c    int
+	resp tlmetadata.GetJournalResponsenew
+	err  error
+}
+
+type poller struct {
+	x       *sut
+	hd      *metadata.Handler
+	srv     *rpc.Server
+	cl      *tlmetadata.Client
+	rc      rpc.Client
+	ctx     context.Context
+	cancel  func()
+	replies chan pollReply
+	parked  map[int]int64 // client -> From of its parked request (harness view, from the real replies)
+	lastCur map[int]int64 // client -> CurrentVersion of its last reply (what a well-behaved client asks from next)
+	seen    map[int]map[int64]bool // client -> versions delivered in the current protocol-following session
+}
+
+func newPoller(x *sut) *poller {
+	p := &poller{x: x, replies: make(chan pollReply, 256), parked: map[int]int64{}, lastCur: map[int]int64{}, seen: map[int]map[int64]bool{}}
+	p.hd = metadata.NewHandler(x.db, "verif", "", func(string, ...interface{}) {})
+	proxy := metadata.ProxyHandler{}
+	hh := tlmetadata.Handler{RawEditEntitynew: proxy.HandleProxy("", p.hd.RawEditEntity)}
+	sh := tlmetadata.Handler{RawGetJournalnew: proxy.HandleProxy("", p.hd.RawGetJournal)}
+	p.srv = rpc.NewServer(rpc.ServerWithHandler(hh.Handle), rpc.ServerWithSyncHandler(sh.Handle), rpc.ServerWithLogf(func(string, ...any) {}))
+	ln, err := net.Listen("tcp4", "127.0.0.1:0")
+	if err != nil {
+		panic(err)
+	}
+	go func() { _ = p.srv.Serve(ln) }()
+	p.rc = rpc.NewClient(rpc.ClientWithLogf(func(string, ...any) {}))
+	p.cl = &tlmetadata.Client{Client: p.rc, Network: "tcp4", Address: ln.Addr().String()}
+	p.ctx, p.cancel = context.WithCancel(context.Background())
+	return p
+}
+
+func (p *poller) close() {
+	p.cancel()
+	_ = p.rc.Close()
+	_ = p.srv.Close()
+}
+
+// checkReply: the C15 journal clause on what one client received: only versions newer than its From, strictly ascending,
+// every event is the entity's latest version, nothing between From and CurrentVersion is left out, and — across the replies
+// of a client that always continues from the CurrentVersion it was given — no version twice.
+func (p *poller) checkReply(c int, from int64, resp tlmetadata.GetJournalResponsenew) {
+	h := p.x.h
+	last := from
+	got := map[int64]bool{}
+	for _, e := range resp.Events {
+		if e.Version <= from {
+			h.Viol("journal-client-duplicate", "client %d asked from=%d and was sent entity %d at version %d again", c, from, e.Id, e.Version)
+		} else if e.Version <= last {
+			h.Viol("journal-client-not-ascending", "client %d (from=%d): version %d after %d", c, from, e.Version, last)
+		}
+		last = e.Version
+		if v, ok := p.x.cur[e.Id]; !ok || v != e.Version {
+			h.Viol("journal-stale", "client %d: entity %d delivered at version %d, latest is %d", c, e.Id, e.Version, v)
+		}
+		if p.seen[c][e.Version] {
+			h.Viol("journal-client-duplicate", "client %d received version %d twice in one session", c, e.Version)
+		}
+		p.seen[c][e.Version] = true
+		got[e.Id] = true
+	}
+	if len(resp.Events) > 0 && resp.CurrentVersion != resp.Events[len(resp.Events)-1].Version {
+		h.Viol("journal-client-missed", "client %d: CurrentVersion %d but last event %d (a client continuing from it skips or repeats)", c, resp.CurrentVersion, resp.Events[len(resp.Events)-1].Version)
+	}
+	for id, v := range p.x.cur {
+		if v > from && v <= resp.CurrentVersion && !got[id] {
+			h.Viol("journal-client-missed", "client %d (from=%d, CurrentVersion=%d) was not sent entity %d at version %d", c, from, resp.CurrentVersion, id, v)
+		}
+	}
+	p.lastCur[c] = resp.CurrentVersion
+}
+
+func replyTok(c int, resp tlmetadata.GetJournalResponsenew) string {
+	toks := make([]string, len(resp.Events))
+	for i, e := range resp.Events {
+		toks[i] = eventTok(e)
+	}
+	return fmt.Sprintf("reply %d cur=%d %s", c, resp.CurrentVersion, verifx.List(toks))
+}
+
+// sub: client c sends metadata.getJournalnew; the harness waits until the request is either answered or parked
+func (p *poller) sub(c int, from int64, limit int64, rie bool) {
+	h := p.x.h
+	b := 0
+	if rie {
+		b = 1
+	}
+	h.Op("sub %d %d %d %d", c, from, limit, b)
+	if from != p.lastCur[c] || p.seen[c] == nil {
+		p.seen[c] = map[int64]bool{} // the client jumps: a new session
+	}
+	before := len(metadata.VerifJournalWaiting(p.hd))
+	args := tlmetadata.GetJournalnew{From: from, Limit: limit}
+	args.SetReturnIfEmpty(rie)
+	go func() {
+		var r tlmetadata.GetJournalResponsenew
+		err := p.cl.GetJournalnew(p.ctx, args, nil, &r)
+		p.replies <- pollReply{c, r, err}
+	}()
+	deadline := time.Now().Add(20 * time.Second)
+	for {
+		select {
+		case r := <-p.replies:
+			if r.err != nil {
+				h.Obs("err %s", strings.ReplaceAll(r.err.Error(), " ", "_"))
+				return
+			}
+			h.Obs("%s", replyTok(r.c, r.resp))
+			h.Stat("poll.reply-immediate", 1)
+			p.checkReply(r.c, from, r.resp)
+			return
+		default:
+		}
+		if len(metadata.VerifJournalWaiting(p.hd)) == before+1 {
+			h.Obs("parked %d", c)
+			h.Stat("poll.parked", 1)
+			p.parked[c] = from
+			// ---- oracle: a request is parked only when nothing newer than its From exists
+			for id, v := range p.x.cur {
+				if v > from {
+					h.Viol("journal-client-missed", "client %d parked with from=%d although entity %d is at version %d", c, from, id, v)
+					break
+				}
+			}
+			return
+		}
+		if time.Now().After(deadline) {
+			h.Obs("hang")
+			return
+		}
+		time.Sleep(50 * time.Microsecond)
+	}
+}
+
+// afterBroadcast collects the replies of the clients that broadcastJournal released and prints them in client order
+func (p *poller) afterBroadcast() {
+	h := p.x.h
+	left := metadata.VerifJournalWaiting(p.hd)
+	n := len(p.parked) - len(left)
+	var rs []pollReply
+	deadline := time.After(20 * time.Second)
+	for len(rs) < n {
+		select {
+		case r := <-p.replies:
+			rs = append(rs, r)
+		case <-deadline:
+			h.Obs("hang")
+			n = len(rs)
+		}
+	}
+	sort.Slice(rs, func(i, j int) bool { return rs[i].c < rs[j].c })
+	for _, r := range rs {
+		from := p.parked[r.c]
+		delete(p.parked, r.c)
+		if r.err != nil {
+			h.Obs("err %d %s", r.c, strings.ReplaceAll(r.err.Error(), " ", "_"))
+			continue
+		}
+		h.Obs("%s", replyTok(r.c, r.resp))
+		h.Stat("poll.reply-broadcast", 1)
+		if len(r.resp.Events) == 0 {
+			h.Viol("journal-client-missed", "client %d released by a broadcast with no events", r.c)
+		}
+		p.checkReply(r.c, from, r.resp)
+	}
+	h.Obs("waiting %s", verifx.List(left))
+	// ---- oracle: after a broadcast nobody stays parked behind a version that exists (pages hold 100 events, cases are smaller)
+	for c, from := range p.parked {
+		for id, v := range p.x.cur {
+			if v > from {
+				h.Viol("journal-client-missed", "client %d still parked with from=%d after a broadcast although entity %d is at version %d", c, from, id, v)
+				break
+			}
+		}
+	}
+}
+
+// critical: the schedule the journal clause hinges on — clients parked at different From values, the highest of them AT the
+// version of an event that the coming broadcast will read
+func (p *poller) critical() {
+	lo, hi := int64(-1), int64(-1)
+	for _, f := range p.parked {
+		if lo < 0 || f < lo {
+			lo = f
+		}
+		if f > hi {
+			hi = f
+		}
+	}
+	if lo >= 0 && hi > lo && p.x.versionIsCurrent(hi) {
+		p.x.flags["poll-critical"] = true
+		p.x.h.Stat("poll.broadcast.critical", 1)
+	}
+}
+
+func (p *poller) broadcast() {
+	p.critical()
+	p.x.h.Op("broadcast")
+	metadata.VerifBroadcastJournal(p.hd)
+	p.x.h.Stat("poll.broadcast", 1)
+	p.afterBroadcast()
+}
+
+func classifyRPC(err error) string {
+	var re *rpc.Error
+	if errors.As(err, &re) {
+		switch {
+		case re.Code == data_model.ErrEntityInvalidVersion.Code:
+			return "invalid-version"
+		case re.Code == data_model.ErrEntityExists.Code:
+			return "exists"
+		case strings.Contains(re.Description, "namespace doesn't exists"):
+			return "ns-missing"
+		case strings.Contains(re.Description, "can't rename namespace"):
+			return "rename-ns"
+		case strings.Contains(re.Description, "UNIQUE constraint failed"):
+			return "constraint"
+		}
+	}
+	return "other:" + strings.ReplaceAll(err.Error(), " ", "_")
+}
+
+// rpcsave: the production path — metadata.editEntitynew through the rpc server: RawEditEntity = SaveEntity + broadcastJournal
+func (p *poller) rpcsave(a saveReq) {
+	x := p.x
+	x.h.Op("rpc%s", x.saveOp(a))
+	ev := tlmetadata.Event{Id: a.id, Name: a.n.str(), EventType: a.typ, Version: a.oldVersion, Data: dataStr(a.dtag, a.dlen), Unused: a.del}
+	ev.SetMetadata(metaStr(a.meta))
+	args := tlmetadata.EditEntitynew{Event: ev}
+	args.SetCreate(a.create)
+	var out tlmetadata.Event
+	p.critical()
+	err := p.cl.EditEntitynew(p.ctx, args, nil, &out)
+	if err != nil {
+		k := classifyRPC(err)
+		x.h.Obs("err %s", k)
+		x.h.Stat("save.err."+strings.SplitN(k, ":", 2)[0], 1)
+		return
+	}
+	x.observeSave(a, out, nil)
+	p.afterBroadcast()
+}
+
+// pollC15: 2-4 journal long-poll clients, saves whose broadcast is delayed (db.SaveEntity, then an explicit broadcast op: the
+// window in which other clients fetch and re-subscribe), saves through the rpc handler, clients that mostly continue from
+// the CurrentVersion they were given and sometimes jump.
+func pollC15(h *verifx.H, r *verifx.Rng) {
+	x := openSut(h, 1000, 3600, 10, 1000000, int64(r.Range(1_000_000, 2_000_000)))
+	defer x.close()
+	p := newPoller(x)
+	defer p.close()
+	nclients := r.Range(2, 4)
+	nops := r.Range(12, 40)
+	for i := 0; i < nops; i++ {
+		x.tick(r)
+		ids := knownIDs(x)
+		switch r.Pick(16, 8, 50, 9, 3) {
+		case 0, 1: // a save: most of them directly on the DB (broadcast pending), the rest through the handler
+			var a saveReq
+			tag := r.Intn(100)
+			if len(ids) == 0 || r.Chance(2, 5) {
+				a = saveReq{n: name{0, r.Range(1, 12)}, create: true, typ: 0, dtag: tag, dlen: 4, meta: r.Intn(3)}
+			} else {
+				id := ids[r.Intn(len(ids))]
+				a = saveReq{n: parseStrName(x.nm[id]), id: id, oldVersion: x.cur[id], typ: x.typ[id], dtag: tag, dlen: 4, meta: r.Intn(3)}
+				if r.Chance(1, 6) {
+					a.oldVersion = int64(r.Intn(int(x.maxVer) + 1))
+				}
+			}
+			if r.Chance(4, 5) {
+				x.save(a)
+				h.Stat("poll.save-direct", 1)
+			} else {
+				p.rpcsave(a)
+				h.Stat("poll.save-rpc", 1)
+			}
+		case 2: // a client that is not parked asks again
+			c := r.Intn(nclients)
+			if _, busy := p.parked[c]; busy {
+				continue
+			}
+			from := p.lastCur[c]
+			if r.Chance(1, 10) {
+				from = int64(r.Intn(int(x.maxVer) + 2))
+			}
+			limit := []int64{1000, 1000, 1000, 100, 2, 1}[r.Intn(6)]
+			p.sub(c, from, limit, r.Chance(1, 8))
+			// a well-behaved client keeps asking from the CurrentVersion it was given until it is parked
+			for k := 0; k < 4 && r.Chance(3, 4); k++ {
+				if _, busy := p.parked[c]; busy {
+					break
+				}
+				p.sub(c, p.lastCur[c], 1000, false)
+			}
+		case 3:
+			p.broadcast()
+		case 4:
+			x.journal(int64(r.Intn(int(x.maxVer)+2)), 1000)
+		}
+	}
+	p.broadcast()
+	x.dump()
+	if x.flags["poll-critical"] {
+		h.NonTrivial("broadcast-with-client-at-pending-version")
+	}
+}
+
 func historyC19(h *verifx.H, r *verifx.Rng) {
 	maxBudget := []int64{1, 2, 3, 3, 5, 8, 1000}[r.Intn(7)]
 	step := []uint32{1, 7, 60, 60, 3600}[r.Intn(5)]
@@ -1227,6 +1556,8 @@ func main() {
 		default:
 			if i%8 == 7 {
 				raceC15(h, r)
+			} else if i%4 == 1 {
+				pollC15(h, r)
 			} else {
 				historyC15(h, r)
 			}
